@@ -48,6 +48,19 @@ pub fn check_error_opt(e: &ErrInfo, op: &Op, os_text_exempt: bool) -> Option<(St
     None
 }
 
+/// a time setter on an entry that is missing from an existing directory: not-found (or
+/// not-supported where the setter is not implemented), whatever layer reports it
+fn missing_target_class(m: &Model, c: &str, got: &Res) -> Option<(String, String)> {
+    if c.is_empty() || m.exists(c) || !m.is_dir(&parent_of(c)) {
+        return None;
+    }
+    match got {
+        Res::Err(e) if matches!(e.class, ErrClass::NotFound | ErrClass::NotSupported) => None,
+        Res::Err(e) if e.io_only => None,
+        other => Some((format!("missing-target:want=Err[NotFound|NotSupported]|got={}", other.class()), format!("the entry is missing from an existing directory; the setter answered {}", short(other)))),
+    }
+}
+
 pub fn run(cfg: &RunCfg, trace: bool) -> RunOut {
     let mut out = run_sync(cfg, trace);
     // the async path type and adapters: same history, same rules for every error they return
@@ -121,7 +134,11 @@ fn async_mirror(cfg: &RunCfg, out: &mut RunOut) -> Option<(String, String, usize
             out.count("probe.c12.async_step_with_injected_failure");
             return None;
         }
-        if matches!(op, Op::SetTime(..)) {
+        if let Op::SetTime(p, ..) = op {
+            let c = canon(&p.s).unwrap_or_default();
+            if let Some((k, d)) = missing_target_class(&before.m[0], &c, &got) {
+                return Some((format!("C12|{}|{}|{}|{}", shape, op.kind(), tcl, k), format!("async port, step {} {:?}: {}", i, op, d), i));
+            }
             continue;
         }
         if matches!(want, Want::Unspec) {
@@ -194,6 +211,11 @@ fn run_sync(cfg: &RunCfg, trace: bool) -> RunOut {
         // classification
         if let Op::SetTime(p, f, ..) = op {
             let c = canon(&p.s).unwrap_or_default();
+            if let Some((k, d)) = missing_target_class(&before.m[0], &c, got) {
+                let key = format!("C12|{}|{}|{}|{}", shape, op.kind(), tcl, k);
+                cx.violate(i, key, format!("step {} {:?}: {}", i, op, d));
+                return true;
+            }
             if top_phys_like && *f == TField::Created && before.m[0].exists(&c) {
                 cx.out.count("probe.c12.unsupported_setter_called");
                 match got {
